@@ -44,7 +44,10 @@ TokTable ==
          \* the second key is a custom claim on the generic parser and the registered iat on PasetoParser
          [i \in 1..Len(seq) |-> Tok(Org("none"), NoEdit, TRUE, [NoClaims EXCEPT !["iss"] = seq[i][1], ![K2] = seq[i][2]])]
     [] Base = "c16" ->
-         LET S == {<<a, b, f>> : a \in {"absent", "v1", "v2"}, b \in {"absent", "v1", "v2"}, f \in {"none", "f1"}} IN
+         \* Small: one authentic token (+ the tampered and the non-JSON one) for the re-parse histories c16r
+         LET S == {<<a, b, f>> : a \in (IF Small THEN {"v1"} ELSE {"absent", "v1", "v2"}),
+                                 b \in (IF Small THEN {"absent"} ELSE {"absent", "v1", "v2"}),
+                                 f \in (IF Small THEN {"none"} ELSE {"none", "f1"})} IN
          LET seq == SetToSeq(S) IN
          [i \in 1..(Len(seq) + 2) |->
             IF i <= Len(seq)
